@@ -329,14 +329,10 @@ impl Shell {
     }
 
     pub fn get_alias_content(&self, name: &str) -> Option<String> {
-        let result = match self.aliases.get(name) {
-            Some(x) => x.to_string(),
-            None => String::new(),
-        };
-        if result.is_empty() {
-            None
-        } else {
-            Some(result)
+        // (an alias may be defined as nothing: that is not "no alias")
+        match self.aliases.get(name) {
+            Some(x) => Some(x.to_string()),
+            None => None,
         }
     }
 }
